@@ -226,6 +226,9 @@ func TestC09(t *testing.T) {
 	var combos []*combo
 	for i := range scs {
 		for _, be := range []string{"mem", "os"} {
+			if scs[i].OSOnly && be != "os" {
+				continue
+			}
 			for _, tr := range []string{"12", "300"} {
 				combos = append(combos, &combo{sc: &scs[i], tree: tr, backend: be})
 			}
